@@ -73,11 +73,13 @@ Reroot(f)    == /\ f[1] = "w" /\ fs[f] # Missing /\ root' = f /\ UNCHANGED fs
 \* the file system changes behind the analysis' back, then the root is set again (stale results in between are by design)
 DiskThenReroot(f, v) == /\ f # root /\ fs' = [fs EXCEPT ![f] = v] /\ UNCHANGED root
                         /\ Rec([a |-> "DiskThenReroot", file |-> f, v |-> v], fs', root)
+\* a file may also go back to a text it had before (undo, branch switch): exactly the same version record, marker included
+Past(f) == ({fs0[f]} \cup {hist[i].act.v : i \in {j \in 1..Len(hist) : hist[j].act.a # "Reroot" /\ hist[j].act.file = f}}) \ {Missing}
 Next == /\ Len(hist) < MaxSteps
         /\ UNCHANGED <<fs0, root0>>
-        /\ \E f \in File : \/ \E v \in Versions(Step) : Touch(f, v)
+        /\ \E f \in File : \/ \E v \in Versions(Step) \cup Past(f) : Touch(f, v)
                            \/ Reroot(f)
-                           \/ \E v \in Versions(Step) \cup {Missing} : DiskThenReroot(f, v)
+                           \/ \E v \in Versions(Step) \cup Past(f) \cup {Missing} : DiskThenReroot(f, v)
 Spec == Init /\ [][Next]_vars
 
 \* one JSON line per complete history: the initial configuration with its expected observation, then every action with
